@@ -76,6 +76,11 @@ impl TwoFloat {
     /// assert!((b - c).abs() < 1e-10);
     /// ```
     pub fn acosh(self) -> Self {
+        if self < 1.0 {
+            // outside the domain; for large negative arguments the sum below
+            // cancels to a rounding residual that can have either sign
+            return Self::NAN;
+        }
         (self + (self * self - 1.0).sqrt()).ln()
     }
 
